@@ -165,7 +165,7 @@ func runRuntime(c *rtCheck) {
 		var specs []*spec.Spec
 		for i := 0; i < n; i++ {
 			prof := c.Profiles[(idx+i)%len(c.Profiles)]
-			s := gen.Generate(run.Rand(2, uint64(idx+i)), fmt.Sprintf("%d", idx+i), gen.Opts{Profile: prof, Runtime: true, Thorough: run.Thorough(), Files: c.AllowFiles, Streams: c.Streams, Unions: c.Unions, Multipart: c.Multipart, MultipartFew: c.MultipartFew})
+			s := gen.Generate(run.Rand(2, uint64(idx+i)), fmt.Sprintf("%d", idx+i), gen.Opts{Profile: prof, Runtime: true, Thorough: run.Thorough(), Files: c.AllowFiles, Streams: c.Streams, Unions: c.Unions, Multipart: c.Multipart, MultipartFew: c.MultipartFew, DocOnlyGadgets: c.PostUncompiled != nil})
 			s.AddFeature("profile-" + prof)
 			specs = append(specs, s)
 		}
